@@ -4,7 +4,7 @@ connection's checkpoint to the target's dependencies; verdict = imported schemas
 well formed, combined schema conforms).  Tie: whole validator (reading generated import files from the snapshot)
 vs the Coq model on importing scenarios and single faults."""
 import random, json, collections
-import common, kernel, engine, imports as I, scenario as S
+import common, kernel, engine, imports as I, imports_deep as D, scenario as S
 
 LEVEL = "proof"
 
@@ -85,7 +85,7 @@ def stitched_formulas(payload):
     return {"trees": out}
 
 
-FORMULA_HEADER = I.COQ_HEADER_I + """
+FORMULA_DEFS = """
 Inductive ftree := FL (l : list nat) | FN (g : option gate) (ch : list ftree).
 Fixpoint formula (s : schema) (fuel : nat) (c : nat) : ftree :=
   match fuel with
@@ -115,23 +115,38 @@ Definition target_formula (s : schema) (is_action : bool) (t : nat) : ftree :=
 """
 
 
+FORMULA_HEADER = I.COQ_HEADER_I + FORMULA_DEFS
+FORMULA_HEADER_DEEP = D.COQ_HEADER_D + FORMULA_DEFS
+
+
 def cq_tree(t):
     if t[0] == "L":
         return "(FL %s)" % S.cq_nats(t[1])
     return "(FN %s %s)" % ("None" if t[1] is None else "(Some G_%s)" % t[1], S.cq_list(cq_tree(c) for c in t[2]))
 
 
-def formula_check(ctx, valid_items, pool):
+def formula_check(ctx, valid_items, pool, deep=False):
     """For every connection of every conformant importing scenario: the dependency formula the implementation ends up
-    with equals the model's (Model/Imports.v combine)."""
+    with equals the model's (Model/Imports.v combine; deep=True: import trees, Model/ImportsDeep.v combine_deep, every
+    connection at every depth)."""
     payloads, meta = [], []
     for it in valid_items:
         case = it.scenario
         targets, bases = [], {}
-        for imp in case["imports"]:
-            bases[imp["file"]] = imp["base"]
-            for c in imp["conns"]:
-                targets.append((imp["file"], c["to"][0], c["to"][1], imp["base"]))
+        if deep:
+            name = it.render["file_of"]           # every rendering of a tree has its own set of files
+            for fid, f in case["files"].items():
+                bases[name[fid]] = f["abs"]
+            for pf, e in D.all_entries(case):
+                f = case["files"][e["fid"]]
+                for c in e["conns"]:
+                    if (name[e["fid"]], c["to"][0], c["to"][1], f["abs"]) not in targets:
+                        targets.append((name[e["fid"]], c["to"][0], c["to"][1], f["abs"]))
+        else:
+            for imp in case["imports"]:
+                bases[imp["file"]] = imp["base"]
+                for c in imp["conns"]:
+                    targets.append((imp["file"], c["to"][0], c["to"][1], imp["base"]))
         if not targets:
             continue
         payloads.append({"doc": it.doc, "targets": [(f, k, l) for (f, k, l, b) in targets], "bases": bases})
@@ -150,18 +165,18 @@ def formula_check(ctx, valid_items, pool):
     CH = 12
     for c0 in range(0, len(per_item), CH):
         part = per_item[c0:c0 + CH]
-        lines = [FORMULA_HEADER]
+        lines = [FORMULA_HEADER_DEEP if deep else FORMULA_HEADER]
         checks = []
         for j, (it, rows) in enumerate(part):
-            lines.append("Definition c%d := %s." % (j, I.to_coq_i(it.scenario)))
-            lines.append("Definition s%d := combine (fst c%d) (snd c%d)." % (j, j, j))
+            lines.append("Definition c%d := %s." % (j, D.to_coq_deep(it.scenario) if deep else I.to_coq_i(it.scenario)))
+            lines.append("Definition s%d := %s (fst c%d) (snd c%d)." % (j, "combine_deep" if deep else "combine", j, j))
             for (tgt, aid, t) in rows:
                 checks.append("ftree_eqb (target_formula s%d %s %d) %s" % (j, "true" if tgt[1] == "action" else "false", aid, cq_tree(t)))
                 index.append((it, tgt, t))
         lines.append("Definition checks : list bool := [%s]." % ";\n  ".join(checks))
         lines.append("Fixpoint failing (i : nat) (l : list bool) : list nat := match l with [] => [] | b :: r => (if b then [] else [i]) ++ failing (S i) r end.")
         lines.append("Eval vm_compute in (failing 0 checks).")
-        files.append(("formulas_%03d" % (c0 // CH), "\n".join(lines) + "\n", len(checks)))
+        files.append(("%sformulas_%03d" % ("deep_" if deep else "", c0 // CH), "\n".join(lines) + "\n", len(checks)))
     outs = ctx.coq_eval_many([(n, b) for (n, b, _) in files])
     bad, off = [], 0
     for (n, b, cnt), (ok, out) in zip(files, outs):
@@ -174,8 +189,104 @@ def formula_check(ctx, valid_items, pool):
     return len(index), bad
 
 
+def extra_property_file(ctx, name):
+    """build and check Properties/<name>.v as well; its theorems and Print Assumptions lines join the evidence"""
+    saved_prop, saved_ass = ctx.prop, list(ctx.assumptions)
+    lock = ctx.coq_lock()
+    try:
+        ctx.prop = name
+        ok, thms, log = ctx.check_property_file()
+    finally:
+        ctx.prop = saved_prop
+        lock.close()
+    ctx.assumptions = saved_ass + (ctx.assumptions if ok else [])
+    cov = ctx.coverage
+    cov["obligations"] = cov.get("obligations", 0) + max(1, len(thms))
+    if ok and cov.get("discharged", 0):
+        cov["discharged"] += len(thms)
+    else:
+        cov["discharged"] = 0
+    cov["obligation_names"] = cov.get("obligation_names", []) + ["OIS.Properties.%s.%s" % (name, t) for t in thms]
+    cov["checker_cmd"] = cov.get("checker_cmd", "") + "; the same for theories/Properties/%s.v" % name
+    return ok, thms, log
+
+
+def deep_family(ctx, n_valid, n_mut):
+    """Import trees of depth 2-3 (imports_deep.py): the whole validator, reading generated files that import generated
+    files, vs Model/ImportsDeep.v; then the stitched formula of every connection target at every depth."""
+    import impl
+    rng = random.Random(ctx.seed * 1000003 + 16)
+    items, tree_stats = [], collections.Counter()
+
+    def render(case, r):
+        for f in case["files"].values():
+            f["file"] = None
+        doc = D.render_deep(case, ctx.repo_copy, random.Random(r["seed"]), r["spelling"], r["shuffle"])
+        r["file_of"] = {fid: f["file"] for fid, f in case["files"].items()}
+        r["imported_files"] = {f["file"]: _read_gen(ctx, f["file"]) for f in case["files"].values()}     # (None: not readable)
+        return doc
+    for i in range(n_valid):
+        case = D.gen_valid_deep(rng, threads=(i % 4 == 0))
+        for k, v in D.stats(case).items():
+            tree_stats[k] += v
+        tree_stats["shape:" + case["shape"]] += 1
+        for v in range(2):
+            r = {"spelling": ["mixed", "alias", "id"][(i + v) % 3], "shuffle": v == 1, "seed": rng.randrange(1 << 30)}
+            items.append(engine.Item(case, render(case, r), "deep_valid", render=r, group="dv%d" % i))
+    for i in range(n_mut):
+        case, name, desc = D.mutate_deep(rng)
+        r = {"spelling": "mixed", "shuffle": i % 2 == 1, "seed": rng.randrange(1 << 30)}
+        items.append(engine.Item(case, render(case, r), "deep_mutant", mutator=name, owner="C16", desc=desc, render=r, group="dm%d" % i))
+    grouped = getattr(engine, "run_items_grouped", None)
+    if grouped is not None:
+        evaluated = grouped(ctx, items, coq_file_fn=D.coq_cases_file_deep, chunk=max(4, min(12, (n_valid + n_mut) // 16 + 1)))
+    else:
+        saved = engine.CHUNK
+        engine.CHUNK = 12
+        try:
+            evaluated = engine.run_items(ctx, items, coq_file_fn=D.coq_cases_file_deep)
+        finally:
+            engine.CHUNK = saved
+    for it in items:
+        it.scenario = D.strip(it.scenario)
+    engine.report(ctx, items, "T3 correspondence: whole validator on import trees of depth 2-3 (generated files that import generated files) vs Coq model (Model/ImportsDeep.v)")
+    # what stitching leaves behind, at every depth
+    pool = impl.Pool(ctx)
+    seen, firsts = set(), []
+    for it in items:
+        if it.kind == "deep_valid" and it.res["outcome"] == "accept" and it.group not in seen:
+            seen.add(it.group)
+            firsts.append(it)
+    n_formulas, bad = formula_check(ctx, firsts[:(60 if ctx.tier == "quick" else 10 ** 9)], pool, deep=True)
+    pool.close()
+    if bad is None:
+        evaluated = False
+        ctx.notes.append("deep stitched formulas could not be evaluated")
+    else:
+        for (it, tgt, tree) in bad[:3]:
+            ctx.violation({"what": "import tree: after validation a connection's target does not depend on exactly (its previous dependencies AND the added checkpoint of the importing schema): the implementation's stitched dependency formula differs from the model's (Model/ImportsDeep.v combine_deep)",
+                           "target": list(tgt), "implementation_formula": tree, "document": it.doc, "imports": it.doc.get("imports"),
+                           "imported_files": it.render["imported_files"],
+                           "scenario": it.scenario})
+    tree_stats["stitched_formulas_compared"] = n_formulas
+    ctx.coverage["deep_imports"] = dict(tree_stats)
+    return evaluated, items
+
+
+def _read_gen(ctx, fname):
+    import os
+    try:
+        return json.load(open(os.path.join(ctx.repo_copy, "schemas", fname + ".json")))
+    except Exception:
+        return None
+
+
 def run(ctx):
     ok, thms, log = kernel.proof_step(ctx, regen=("tables",))
+    ok_d, thms_d, log_d = extra_property_file(ctx, "C16_deep")
+    if not ok_d:
+        ok, log = False, log + log_d
+    thms = thms + thms_d
     rng = random.Random(ctx.seed)
     scale = 1 if ctx.tier == "quick" else 10
     items = []
@@ -216,12 +327,17 @@ def run(ctx):
     if r_imp["outcome"] == "accept" and r_nat["outcome"] == "accept":
         ctx.known_finding("a native checkpoint may depend on an imported action that appends objects (the 'no checkpoint depends on an appending action' rule is only enforced inside the imported schema); witness: checks/c16.py kf_witness")
     ctx.notes.append("known-finding witness: imported alone %s, importing %s" % (r_imp["outcome"], r_nat["outcome"]))
+    deep_evaluated, deep_items = deep_family(ctx, 80 * scale, 120 * scale)
+    evaluated = evaluated and deep_evaluated
+    items = items + deep_items
     ctx.coverage.update({
-        "rule": "importing scenarios: 1-2 generated importable schemas (some with thread groups), native actions depending on imported actions through schema-qualified references (both spellings), 0-2 connections per import onto imported actions with / without a checkpoint and onto imported checkpoints, each rendered twice; single faults: imported schema invalid (any mutator), file unreadable, connection target missing / native, added dependency missing / imported / not a checkpoint, cycle closed through a connection, checkpoint with threaded context added through a connection; distinct by scenario",
+        "rule": "import trees (family deep): 2-5 generated files in trees of depth 2-3 (chains, fans, diamonds: a file reached on two ways is loaded once and every entry's connections are stitched), entries spelled exactly alike in different importers, 0-2 connections per entry at every level onto actions with / without depends_on and onto checkpoints, native and intermediate schemas referring to directly and transitively imported actions, one schema per tree with thread groups; single faults at depth >= 2: invalid schema, unreadable file, connection target missing / in another file / in a transitively imported file / in the importer, add_dependency missing / of the imported schema / an action / a checkpoint of the importer's importer, duplicate target, cycle inside an imported schema's own imports, cycle that exists only in the root through a nested connection, the second of two identical entries closing a cycle, threaded checkpoint added by a nested connection; the stitched dependency formula of every connection target at every depth. "
+                "importing scenarios: 1-2 generated importable schemas (some with thread groups), native actions depending on imported actions through schema-qualified references (both spellings), 0-2 connections per import onto imported actions with / without a checkpoint and onto imported checkpoints, each rendered twice; single faults: imported schema invalid (any mutator), file unreadable, connection target missing / native, added dependency missing / imported / not a checkpoint, cycle closed through a connection, checkpoint with threaded context added through a connection; distinct by scenario",
         "samples": [{"kind": it.kind, "mutator": it.mutator, "implementation": it.res["outcome"], "model_accepts": it.model_accepts,
                      "imports": it.doc.get("imports")} for it in items[:1] + [x for x in items if x.kind == "mutant"][:2]],
         "trusted_base": ["harness/imports.py: generator / renderer of importing scenarios; writes the imported JSON files into the snapshot's schemas/gen/",
-                         "namespacing is modelled as an id shift by a multiple of 1000 per import; import depth 1 (recursive imports are exercised by the shipped fixtures only)",
+                         "harness/imports_deep.py: generator / renderer of import trees (depth <= 3, <= 5 files); assigns one id range per file, importers before imported, and spells a tree out per entry for the model",
+                         "namespacing is modelled as an id shift by a multiple of 1000 per file (relative to the importer in Model/ImportsDeep.v); cyclic imports are not generated",
                          "rules that concern imported entities are checked by the model on the combined schema; the implementation validates imported schemas in isolation (known finding C16-imported-not-revalidated is avoided by the generator)"]})
     if not evaluated and not ctx.violations:
         kernel.obligation_violation(ctx, thms, "; ".join(ctx.notes[-3:]), {"correspondence": "Coq evaluation of import cases failed"})
